@@ -12,3 +12,16 @@ func Verif_T00_selftest_violation() {
 	var o OriginPathAttr
 	_ = o.Decode(PathAttrFlags(0x40), b[2:]) // slice bounds obligation when len < 2
 }
+
+// engine-only replay path (concrete re-execution of the SSA): fixed-length buffer + a buffer of
+// symbolic length + a bounded integer + a goroutine; MUST be reported as a violation too.
+func Verif_T00_selftest_engine_only() {
+	verifEngineOnly()
+	h := verifBuf("hdr", 4, 4)
+	t := verifBuf("tail", 0, 8)
+	n := verifRange("n", 1, 4)
+	ch := make(chan int, 1)
+	go func() { ch <- int(h[0]) + len(t) + n }()
+	v := <-ch
+	verifAssert("selftest-engine-only", v != 0x20+5+3 || h[3] != 9 || n != 3)
+}
